@@ -27,7 +27,7 @@ var Targets = []string{"93.184.216.34:53", "93.184.216.34:80", "[2606:2800:220:1
 var Strangers = []string{"198.51.100.77:7777", "198.51.100.77:53"}
 
 type Op struct {
-	K   string        `json:"k"`             // S send | R reply | X stranger | A advance | Q shutdown
+	K   string        `json:"k"`             // S send | R reply | X stranger | A advance | Q shutdown | E read error | P parallel
 	C   int           `json:"c,omitempty"`   // client
 	Key int           `json:"key,omitempty"` // key index; -1 foreign key
 	T   int           `json:"t,omitempty"`   // target (S, R) or stranger (X)
@@ -330,6 +330,16 @@ func Run(cfg Config, ops []Op, tr *Trace) {
 				dst.IP = vw.ProxyIP6
 			}
 			w.Sock(from).SendRaw(payload, dst)
+			observe(st, -1)
+		case "E":
+			// a transient, non-timeout read error on the client's outbound socket
+			if u := natSock[op.C]; u != nil && !u.IsClosed() {
+				st.AliveBefore = true
+				u.InjectReadError()
+			} else {
+				st.Skipped = true
+				continue
+			}
 			observe(st, -1)
 		case "A":
 			vrt.Sleep(op.D)
